@@ -3,7 +3,7 @@ import hashlib
 
 from hypothesis import strategies as st
 
-from vlib.runner import good, bad, HarnessError
+from vlib.runner import good, bad, HarnessError, BaselineBroken
 from vlib.det import DET
 from vlib import scenario as sc
 from vlib.refs import rsa as rrsa
@@ -245,7 +245,7 @@ def check_wire(case):
     labels = ["wire", "ver=" + ver, "cls=" + cls]
     control, _ = observe(ver, "valid48", 0, case["seed"] + 1000, case["key"])
     if control is None:
-        raise HarnessError("control run failed")
+        raise BaselineBroken("rsa-control-run", ver)
     obs, state = observe(ver, cls, case["pos"], case["seed"], case["key"])
     if obs is None:
         return good(nt=False, labels=labels + ["em>=n"])
